@@ -220,6 +220,8 @@ _CASES = [
     {"label": "3d,zyx,dx_dy,res_dict", "ndim": 3, "direction": "zyx", "window": "dx_dy", "resolution": "dict"},
     {"label": "2d,z,dx_same_unit,res_int", "ndim": 2, "direction": "z", "window": "same_unit", "resolution": "int"},
     {"label": "2d,z,dx_other_unit,res_dict", "ndim": 2, "direction": "z", "window": "other_unit", "resolution": "dict"},
+    {"label": "3d,z,operation=nansum", "ndim": 3, "direction": "z", "window": "same_unit", "resolution": "int", "operation": "nansum"},
+    {"label": "2d,z,operation=nanmean", "ndim": 2, "direction": "z", "window": "same_unit", "resolution": "int", "operation": "nanmean"},
     {"label": "3d,z,dx_omitted,res_int", "ndim": 3, "direction": "z", "window": "none", "resolution": "int"},
     {"label": "3d,y,vector+scalar", "ndim": 3, "direction": "y", "window": "same_unit", "resolution": "int", "layers": ("vector", "scalar")},
     {"label": "2d,z,vector", "ndim": 2, "direction": "z", "window": "same_unit", "resolution": "int", "layers": ("vector",)},
@@ -420,7 +422,7 @@ def complete(run, kc, j, i, q, win_facts, k, tag):
       cases=_CASES, replay=NM.replay_c03, max_paths=64)
 def map_thin(case):
     run = MapRun(ndim=case["ndim"], direction=case["direction"], window=case["window"], resolution=case["resolution"],
-                 layers=case.get("layers", ("scalar",)))
+                 layers=case.get("layers", ("scalar",)), operation=case.get("operation"))
     if run.raised is not None:
         # raised "No cells were selected": only when no loaded cell is near the plane
         core.cover("raised_no_cells")
